@@ -201,6 +201,9 @@ func c09Ops() []c09op {
 		}},
 		{name: "t-length+1", tamper: true, t: func(t *mtx.Tx) { t.Length++ }},
 		{name: "t-length-1", tamper: true, t: func(t *mtx.Tx) { t.Length-- }},
+		{name: "t-length-0", tamper: true, t: func(t *mtx.Tx) { t.Length = 0 }},
+		{name: "t-length-max", tamper: true, t: func(t *mtx.Tx) { t.Length = ^uint32(0) }},
+		{name: "t-length-low-byte-0", tamper: true, t: func(t *mtx.Tx) { t.Length &^= 0xff }},
 		{name: "t-inner-hash-bit-flip", tamper: true, t: func(t *mtx.Tx) { t.Inner[0] ^= 1 }},
 		{name: "t-null-sig-first", tamper: true, t: func(t *mtx.Tx) {
 			if len(t.Sigs) > 0 {
@@ -226,6 +229,16 @@ func c09Ops() []c09op {
 			return s
 		})},
 		{name: "t-r-zero", tamper: true, t: withSig(0, func(s txnsecp.Sig) txnsecp.Sig { s.R = new(big.Int); return s })},
+		// crafted signature with a tiny r (below p-n, so that r+n is a field element too) and every recovery id: with recid 2/3 the
+		// nonce point must be lifted from x = r+n, whether a key can be recovered differs between r and r+n
+		{name: "t-tiny-r1-s1-recid0", tamper: true, t: withSig(0, func(s txnsecp.Sig) txnsecp.Sig { return txnsecp.Sig{R: big.NewInt(1), S: big.NewInt(1), Recid: 0} })},
+		{name: "t-tiny-r1-s1-recid1", tamper: true, t: withSig(0, func(s txnsecp.Sig) txnsecp.Sig { return txnsecp.Sig{R: big.NewInt(1), S: big.NewInt(1), Recid: 1} })},
+		{name: "t-tiny-r1-s1-recid2", tamper: true, t: withSig(0, func(s txnsecp.Sig) txnsecp.Sig { return txnsecp.Sig{R: big.NewInt(1), S: big.NewInt(1), Recid: 2} })},
+		{name: "t-tiny-r1-s1-recid3", tamper: true, t: withSig(0, func(s txnsecp.Sig) txnsecp.Sig { return txnsecp.Sig{R: big.NewInt(1), S: big.NewInt(1), Recid: 3} })},
+		{name: "t-tiny-r7-s1-recid0", tamper: true, t: withSig(0, func(s txnsecp.Sig) txnsecp.Sig { return txnsecp.Sig{R: big.NewInt(7), S: big.NewInt(1), Recid: 0} })},
+		{name: "t-tiny-r7-s1-recid1", tamper: true, t: withSig(0, func(s txnsecp.Sig) txnsecp.Sig { return txnsecp.Sig{R: big.NewInt(7), S: big.NewInt(1), Recid: 1} })},
+		{name: "t-tiny-r7-s1-recid2", tamper: true, t: withSig(0, func(s txnsecp.Sig) txnsecp.Sig { return txnsecp.Sig{R: big.NewInt(7), S: big.NewInt(1), Recid: 2} })},
+		{name: "t-tiny-r7-s1-recid3", tamper: true, t: withSig(0, func(s txnsecp.Sig) txnsecp.Sig { return txnsecp.Sig{R: big.NewInt(7), S: big.NewInt(1), Recid: 3} })},
 		{name: "t-s-zero", tamper: true, t: withSig(-1, func(s txnsecp.Sig) txnsecp.Sig { s.S = new(big.Int); return s })},
 		{name: "t-r-equals-order", tamper: true, t: withSig(0, func(s txnsecp.Sig) txnsecp.Sig { s.R = new(big.Int).Set(txnsecp.N); return s })},
 		{name: "t-r-not-on-curve", tamper: true, t: withSig(0, func(s txnsecp.Sig) txnsecp.Sig {
